@@ -54,7 +54,7 @@ def e2e(ctx):
             # every third script runs against daemons that hold each pin/add for 150 ms (in-flight calls are then
             # overtaken by later instructions and must be abandoned when their operation is cancelled)
             scripts.append({"id": "e%d" % k, "peers": ["p1", "p2", "p3"], "cids": ["c1", "c2", "c3"], "acts": acts,
-                            "slow": 150 if k % 3 == 1 else 0})
+                            "slow": 150 if k % 3 == 1 else 0, "reset": k % 2 == 0})
     # directed behaviours of Cluster.tla for the overtaking cases (every API-level sequence is a behaviour of the
     # module): an instruction arrives while the previous pin/add of the same CID is still in flight at slow daemons
     def P(at, c, rmin, rmax, mode="rec"):
@@ -68,6 +68,22 @@ def e2e(ctx):
         [P("p1", "c1", 2, 3), P("p2", "c1", 1, 1), U("p3", "c1")],
         [P("p2", "c3", -1, -1), U("p2", "c3"), P("p2", "c3", 1, 2), U("p1", "c3"), P("p1", "c3", -1, -1)],
     ]
+    S = {"name": "Settle"}
+    def D(p):
+        return {"name": "IpfsDown", "p": p}
+    def H(p):
+        return {"name": "IpfsHeal", "p": p}
+    # instructions carried out while a daemon is down: every kind of instruction (pin, unpin, move away) meets an outage
+    outage = [
+        [P("p1", "c1", -1, -1), S, D("p2"), U("p1", "c1"), S, H("p2")],
+        [D("p2"), P("p1", "c1", -1, -1), S, H("p2")],
+        [P("p1", "c1", -1, -1), P("p1", "c2", -1, -1), S, D("p3"), U("p2", "c1"), P("p2", "c3", -1, -1), S, H("p3"), S, U("p1", "c2")],
+        [P("p1", "c1", 2, 3), S, D("p1"), D("p2"), U("p3", "c1"), S, H("p1"), H("p2")],
+    ]
+    for k, acts in enumerate(outage):
+        for reset in (False, True):     # the outage answers IPFS-style 500s / drops the connections
+            scripts.append({"id": "o%d%s" % (k, "r" if reset else ""), "peers": ["p1", "p2", "p3"], "cids": ["c1", "c2", "c3"],
+                            "acts": acts, "slow": 0, "reset": reset})
     for k, acts in enumerate(directed):
         for slow in (120, 400):
             scripts.append({"id": "d%d-%d" % (k, slow), "peers": ["p1", "p2", "p3"], "cids": ["c1", "c2", "c3"],
